@@ -143,8 +143,8 @@ class C20(Check):
         closes = []
         w.close_handler = lambda worker: closes.append(1)
         g = loop.run()
-        sel = next(g)                                   # first iteration: registers the worker, yields Select
-        status = "ok"
+        started = [False]                               # the loop's first pass (which registers the worker) happens at the first
+        status = "ok"                                   # pump: sends and even a fatal send_fast error may precede it
         try:
             for op in case["ops"]:
                 if op["op"] == "send":
@@ -155,7 +155,10 @@ class C20(Check):
                     sock.script = []
                 else:
                     # close commands queued by worker.close() run at the start of the next iteration, i.e. before the next select
-                    sel = g.send(([], [], []))
+                    if not started[0]:
+                        started[0] = True; sel = next(g)
+                    else:
+                        sel = g.send(([], [], []))
                     rl, wl, xl = sel._args[0], sel._args[1], sel._args[2]
                     sock.script = [self._o(op["o"])]
                     sel = g.send(([], [w] if w in wl else [], []))
